@@ -362,7 +362,7 @@ def poly_same_object(tier, seed):
     r = _result("rt.poly_same_object", "random integer polyhedra (<=3x3, coefficients -3..3, boolean/integer/negative/degenerate bounds) x "
                 "sequences of 5 calls out of (reducable_rows, reducable_columns_approx, reducable_rows_and_columns, reduce, "
                 "reduce_columns, reduce_rows, row_bounds, tighten_column_bounds, ineqs_satisfied, separable, ineq_separate_points, "
-                "to_linalg, A_max, A_min) on the same object; snapshot of the object before/after each call and comparison of "
+                "to_linalg, A_max, A_min, row_distribution, row_stretch_int, row_stretch, n_row_combinations, column_bounds, A, b) on the same object; snapshot of the object before/after each call and comparison of "
                 "each answer with the answer of a fresh copy; non-trivial = distinct (method, position)")
     rng = random.Random(seed + 991)
     n = 120 if tier == "quick" else 1200
@@ -401,8 +401,13 @@ def poly_same_object(tier, seed):
             "ineqs_satisfied": lambda q: q.ineqs_satisfied(np.array(pts)), "separable": lambda q: q.separable(np.array(pts)),
             "ineq_separate_points": lambda q: q.ineq_separate_points(np.array(pts)), "to_linalg": lambda q: q.to_linalg(),
             "A_max": lambda q: q.A_max, "A_min": lambda q: q.A_min,
+            "row_distribution": lambda q: q.row_distribution(rng_row[0]), "row_stretch_int": lambda q: q.row_stretch_int(rng_row[0]),
+            "row_stretch": lambda q: q.row_stretch(), "n_row_combinations": lambda q: q.n_row_combinations(),
+            "column_bounds": lambda q: q.column_bounds(), "A": lambda q: q.A, "b": lambda q: q.b,
         }
+        rng_row = [0]
         for step in range(5):
+            rng_row[0] = rng.randrange(rows)
             name = rng.choice(sorted(calls))
             before = snap(p)
             try:
